@@ -72,3 +72,8 @@ M("c18-anext-swallows-errors", "C18", "abc/_streams.py", "ByteReceiveStream.__an
 M("c18-clear-before-split", "C18", A, RC,
   "            if len(chunk) > max_bytes:\n                # Split the oversized chunk\n                chunk, leftover = chunk[:max_bytes], chunk[max_bytes:]\n                self._protocol.read_queue.appendleft(leftover)\n\n            # If the read queue is empty, clear the flag so that the next call will\n            # block until data is available\n            if not self._protocol.read_queue:\n                self._protocol.read_event.clear()\n",
   "            if not self._protocol.read_queue:\n                self._protocol.read_event.clear()\n\n            if len(chunk) > max_bytes:\n                # Split the oversized chunk\n                chunk, leftover = chunk[:max_bytes], chunk[max_bytes:]\n                self._protocol.read_queue.appendleft(leftover)\n", ["R18-c"])
+
+# from seeded changes C18/e, C18/f (round 3)
+M("c18-unix-send-eof-under-receive-guard", "C18", A, "UNIXSocketStream.send_eof", "        with self._send_guard:", "        with self._receive_guard:", ["R18-e"])
+M("c18-validate-socket-object-stays-blocking", "C18", "abc/_sockets.py", "_validate_socket", "    elif isinstance(sock_or_fd, socket.socket):\n        sock = sock_or_fd\n",
+  "    elif isinstance(sock_or_fd, socket.socket):\n        return sock_or_fd\n", ["R18-f"])
